@@ -208,6 +208,11 @@ def gen_cases(ctx):
         add("announce-action-%d" % a, [good_connect(rng)], [dict(good_announce(rng, 2, 6), action=a)])
     add("announce-error-message", [good_connect(rng)], [{"action": 3, "txid": "echo", "body": b"torrent not registered".hex()}])
     add("connect-error-message", [{"action": 3, "txid": "echo", "body": b"connection refused by policy".hex()}], [good_announce(rng, 1, 6)])
+    # error-action replies cut at every length up to a full header and a little more (added after seeded change C12-7: the error
+    # message sliced from offset 8 without a length guard)
+    for ln in range(0, 13):
+        add("announce-error-cut-%d" % ln, [good_connect(rng)], [{"action": 3, "txid": "echo", "body": b"nope".hex(), "cut": ln}])
+        add("connect-error-cut-%d" % ln, [{"action": 3, "txid": "echo", "body": b"nope".hex(), "cut": ln}], [good_announce(rng, 1, 6)])
     add("announce-empty-datagram", [good_connect(rng)], [{"raw": ""}])
     add("connect-empty-datagram", [{"raw": ""}], [good_announce(rng, 1, 6)])
     add("announce-gets-connect-reply", [good_connect(rng)], [good_connect(rng)])
@@ -650,8 +655,18 @@ def serve_until(trackers, done, extra_socks=()):
         t.pump()
 
 
-def make_torrent(urls):
-    info = ("d", [(b"length", 5), (b"name", b"x"), (b"piece length", 16384), (b"pieces", b"a" * 20)])
+def make_torrent(urls, shape="five-bytes"):
+    """shape: what the torrent's content is - the request must not depend on it (in particular `left` stays non-zero for a
+    torrent without content; added after seeded change C12-8)"""
+    if shape == "empty-file":
+        info = ("d", [(b"length", 0), (b"name", b"x"), (b"piece length", 16384), (b"pieces", b"")])
+    elif shape == "empty-files":
+        info = ("d", [(b"files", [("d", [(b"length", 0), (b"path", [b"a"])]), ("d", [(b"length", 0), (b"path", [b"b"])])]),
+                      (b"name", b"x"), (b"piece length", 16384), (b"pieces", b"")])
+    elif shape == "large":
+        info = ("d", [(b"length", (1 << 40) + 1), (b"name", b"x"), (b"piece length", 1 << 24), (b"pieces", b"a" * 20)])
+    else:
+        info = ("d", [(b"length", 5), (b"name", b"x"), (b"piece length", 16384), (b"pieces", b"a" * 20)])
     top = [(b"announce", urls[0].encode())] if urls else []
     if len(urls) > 1:
         top.append((b"announce-list", [[u.encode()] for u in urls]))
@@ -698,7 +713,8 @@ def gen_e2e(ctx):
             specs.append({"t": rng.choice(("http", "https", "portless", "wss", "garbage"))})
         rng.shuffle(specs)
         # shared duplicate peers across trackers: reuse the first valid tracker's body in another one
-        out.append({"name": "e2e-%d" % i, "specs": specs, "cmd": "announce"})
+        out.append({"name": "e2e-%d" % i, "specs": specs, "cmd": "announce",
+                    "shape": ("five-bytes", "empty-file", "empty-files", "large")[i % 4]})
     # all trackers unusable
     out.append({"name": "e2e-only-http", "specs": [{"t": "http"}], "cmd": "announce"})
     out.append({"name": "e2e-only-portless", "specs": [{"t": "portless"}, {"t": "garbage"}], "cmd": "announce"})
@@ -715,10 +731,14 @@ def gen_e2e(ctx):
         specs = [{"t": "udp", "kind": "valid", "v6": False, "s1": [good_connect(rng)], "s2": [a]}]
         if i % 2:
             specs.append({"t": "http"})
+        # an unusable tracker listed BEFORE the usable one must be skipped, not end the whole fan-out (added after seeded
+        # change C12-9: try_for_each over the trackers); with one worker thread the order is deterministic
+        if i % 4 in (1, 2):
+            specs.insert(0, {"t": ("http", "portless", "https", "garbage")[(i // 4) % 4]})
         if i % 3 == 2:
             specs.append({"t": "udp", "kind": "bad-txid", "v6": False, "s1": [good_connect(rng)],
                           "s2": [dict(good_announce(rng, 1, 6), txid="plus1")]})
-        out.append({"name": "fromlink-%d" % i, "specs": specs, "cmd": "from-link"})
+        out.append({"name": "fromlink-%d" % i, "specs": specs, "cmd": "from-link", "one_thread": i % 2 == 0 or i % 4 == 1})
     return out
 
 
@@ -746,7 +766,7 @@ def run_e2e_case(ctx, ec, tmp):
     th.start()
     try:
         if ec["cmd"] == "announce":
-            data, ih = make_torrent(urls)
+            data, ih = make_torrent(urls, ec.get("shape", "five-bytes"))
             with open(os.path.join(d, "t.torrent"), "wb") as f:
                 f.write(data)
             argv = ["torrent", "announce", "--input", "t.torrent"]
@@ -754,7 +774,10 @@ def run_e2e_case(ctx, ec, tmp):
             ih = hashlib.sha1(("fromlink" + ec["name"]).encode()).digest()
             link = "magnet:?xt=urn:btih:%s" % ih.hex() + "".join("&tr=" + u for u in urls if " " not in u)
             argv = ["torrent", "from-link", link, "--output", "out.torrent"]
-        rc, out, err = ctx.imdl(argv, cwd=d, env={"NO_COLOR": "1", "TERM": "dumb"}, timeout=120)
+        env = {"NO_COLOR": "1", "TERM": "dumb"}
+        if ec.get("one_thread"):
+            env["RAYON_NUM_THREADS"] = "1"
+        rc, out, err = ctx.imdl(argv, cwd=d, env=env, timeout=120)
     finally:
         done.set()
         th.join()
